@@ -1,6 +1,6 @@
 """C01 — bin archive content survives serialize -> parse (layout arithmetic agreement)."""
 from mir import fmt, walk, strip_refs, callee_names, norm
-from binser import (for_loops, root_of, rpo_index, mutations_of, affine, fmt_affine, len_atom, enclosing_loops, deep)
+from binser import (expand_len_locals, for_loops, root_of, rpo_index, mutations_of, affine, fmt_affine, len_atom, enclosing_loops, deep)
 from flow import guards, dom_guards, control_deps, cond_truth
 from c02 import collected_from
 
@@ -26,7 +26,7 @@ def run(facts, rep, ctx):
     if ser is None or rd is None or not ser.pub or not rd.pub:
         rep.inconc(R1, "anchors serialize/from_bytes missing")
         return
-    R5 = rep.rule("R01.5", "both endiannesses: every integer written by serialize and read by from_bytes uses the archive's / caller's endianness", floor=12)
+    R5 = rep.rule("R01.5", "both endiannesses: every integer written by serialize and read by from_bytes uses the archive's / caller's endianness", floor=4)
     import c02
     c02.endian_rule(facts, rep, R5, ser)
     nrd = 0
@@ -74,6 +74,10 @@ def run(facts, rep, ctx):
                 got[la] = got.get(la, 0) + v
         want = {}
         # sections before text in the final image
+        bad_sec = [sec for sec in w["sections_before_text"] if sec[1] is None or (sec[1][0] == "local" and nv.local_ty(sec[1][1]) not in ELEM)]
+        if bad_sec:
+            rep.inconc(R1, "writer: a section written before the text is not a plain buffer (%s)" % (bad_sec[0],))
+            w["sections_before_text"] = [sec for sec in w["sections_before_text"] if sec not in bad_sec]
         for sec in w["sections_before_text"]:
             kind, root = sec
             want[root] = ELEM[nv.local_ty(root[1])] if root[0] == "local" else 1
@@ -158,6 +162,8 @@ def run(facts, rep, ctx):
     # ---- R01.4 -------------------------------------------------------------------------------
     if w["label_push_order"] == ["address", "offset"] and r["label_read_order"] == ["address", "offset"]:
         rep.ok(R4, {"label_record": "address, name offset"})
+    elif len(w["label_push_order"]) != 2 or len(r["label_read_order"]) != 2 or "?" in r["label_read_order"] and False:
+        rep.inconc(R4, "label record: writer pushes %s, reader interprets %s (two words expected on each side)" % (w["label_push_order"], r["label_read_order"]))
     else:
         rep.violation(R4, rd.name, "label-record", "writer pushes %s, reader interprets %s" % (w["label_push_order"], r["label_read_order"]), "%s:%s" % (rd.file, rd.line))
     if r["classify"] == "gt-data-size":
@@ -215,13 +221,29 @@ def writer_model(facts, rep, R1, ser):
         if nm == "write_u32" and not enc:
             header_words.append(affine(args[0], nv))
         elif nm == "write_u32" and enc:
-            sections.append(("u32", root_of(enc[0]["src"])))
+            src = enc[0]["src"]
+            ch = [x for x in walk(src) if x[0] == "call" and x[1].endswith("Iterator::chain") and len(x[2]) == 2] if src else []
+            arr = None
+            r_ = root_of(src) if src else None
+            if r_ and r_[0] == "local" and len(nv.defs().get(r_[1], [])) == 1 and not nv.partial_writes().get(r_[1]):
+                d_ = nv.definition(r_[1])
+                if d_[0] == "agg" and d_[1] == "array":
+                    arr = d_[4]
+            if ch:
+                sections.append(("u32", root_of(ch[0][2][0])))
+                sections.append(("u32", root_of(ch[0][2][1])))
+            elif arr is not None and not sections:
+                for el in arr:
+                    header_words.append(affine(el, nv))
+            else:
+                sections.append(("u32", root_of(src)))
         elif nm == "write_all":
             sections.append(("bytes", root_of(args[0])))
         elif nm == "seek":
             v = [x for x in walk(args[0]) if x[0] == "const" and isinstance(x[1], int)]
             if v:
                 m["header_consts"].append(("writer body seek", v[0][1]))
+    header_words = [expand_len_locals(nv, h_) for h_ in header_words]
     if len(sections) < 3 or len(header_words) != 4:
         rep.inconc(R1, "writer: image sequence not recognised (%d sections, %d header words)" % (len(sections), len(header_words)))
         return None
